@@ -21,7 +21,7 @@ Judge(r, i) ==
           \* an href with two or more leading slashes inside a report body is a network-path
           \* reference (RFC 3986 4.2): its first segment is an authority, not a path segment
           \cup (IF Safe(r) /\ ~r.leak /\ ~AsNormalised(r) /\ r.norm = Norm(r.segs)
-                   /\ ~(r.method = "MULTIGET" /\ r.lead > 1)
+                   /\ ~(r.method = "MULTIGET" /\ r.netpath)
                   THEN {"not-answered-as-the-normalised-path"} ELSE {})
     IN {[k |-> IF d \in EnabledDevs THEN "known" ELSE "viol", i |-> i, dev |-> d] :
           d \in {"path:" \o r.method \o ":" \o Shape(r) \o ":" \o c : c \in clauses}}
